@@ -12,6 +12,8 @@ def replay(args, outdir):
         return _two_reads(a, merge)
     if lemma == 'L4_two_files_same_contig_name':
         return _two_files(a, merge)
+    if lemma == 'L3b_merge_two_files_same_bins':
+        return _two_files_same_bins(a)
     if lemma == 'L3_merge_order':
         import importlib
         H = importlib.import_module('harness.C12')
@@ -98,6 +100,44 @@ def _two_files(a, merge):
             return dict(reproduced=False)
         return dict(reproduced=True, signature='L4_two_files_same_contig_name:second_file_wrong',
                     what='counting a.bam (chr1 length %d) then b.bam (chr1 length %d) in one process: b.bam -> %r expected %r' % (LA, LB, totals['b'], exp_b))
+    finally:
+        shutil.rmtree(d, ignore_errors=True)
+
+
+def _two_files_same_bins(a):
+    """two REAL BAM files with reads of the same cells in the same bins through the real generate_commands([a, b]) + obtain_counts"""
+    import pysam
+    import singlecellmultiomics.bamProcessing.bamBinCounts as B
+    BINS = [('chr1', 0, 2), ('chr1', 2, 4)]
+    CELLS = ['cellA', 'cellB']
+    specs = {'a': [(a['a0'], a['c0']), (a['a1'], a['c1'])][:a['n1']], 'b': [(a['b0'], a['d0']), (a['b1'], a['d1'])][:a['n2']]}
+    if any(c > 50 for v in specs.values() for _, c in v):
+        return dict(reproduced=False, note='counts too large to write as reads')
+    d = tempfile.mkdtemp(prefix='c12m', dir=os.environ.get('VERIF_SCRATCH') or None)
+    try:
+        exp, paths = {}, []
+        for name in ('a', 'b'):
+            path = os.path.join(d, name + '.bam')
+            paths.append(path)
+            with pysam.AlignmentFile(path, 'wb', header={'HD': {'VN': '1.6', 'SO': 'coordinate'}, 'SQ': [{'SN': 'chr1', 'LN': 4}]}) as o:
+                for i, (cell, c) in enumerate(specs[name]):
+                    for k in range(c):
+                        r = pysam.AlignedSegment(o.header)
+                        r.query_name, r.reference_id, r.reference_start = 'q%s%d_%d' % (name, i, k), 0, BINS[i][1]
+                        r.query_sequence, r.query_qualities, r.cigarstring = 'A', [30], '1M'
+                        r.is_paired, r.is_read1, r.mapping_quality = True, True, 60
+                        r.set_tag('SM', CELLS[cell])
+                        o.write(r)
+                    exp.setdefault(BINS[i], {})
+                    exp[BINS[i]][CELLS[cell]] = exp[BINS[i]].get(CELLS[cell], 0) + c
+            pysam.index(path)
+        order = paths if a['order'] else paths[::-1]
+        cmds = list(B.generate_commands(order, bin_size=2, bins_per_job=1, max_fragment_size=2, min_mq=50, key_tags=None, dedup=True, kwargs={}))
+        got = B.obtain_counts(cmds, reference=None, live_update=False, threads=1)
+        got = {k: dict(v) for k, v in got.items() if v}
+        if got == exp:
+            return dict(reproduced=False)
+        return dict(reproduced=True, signature='L3b_merge_two_files_same_bins:not_summed', what='two BAM files %r through generate_commands + obtain_counts -> %r expected %r' % (specs, got, exp))
     finally:
         shutil.rmtree(d, ignore_errors=True)
 
